@@ -41,7 +41,7 @@ class Sim:
     """One simulated execution: clock, timers, baton threads, event log."""
 
     def __init__(self, decider, p_switch=0.3, p_clock=0.3, jump_weights=None,
-                 max_events=60000):
+                 max_events=400000):
         self.dec = decider
         self.p_switch = p_switch
         self.p_clock = p_clock
